@@ -87,3 +87,29 @@ S["C20"] = dict(title="mqtttest doubles flag every deviation and mimic the clien
   assumptions=["testing.TB is a counting double (Errorf/Error/Fatalf/Cleanup/Helper); Fatalf is modelled as a panic caught by the harness", "time.Sleep returns immediately in the model"],
   bounds={"quick":"<= 2 expectations, <= 2 calls, messages <= 1 byte, topics/filters 1 symbolic byte, <= 2 filters per call; scripts of <= 3 entries","thorough":"<= 3 calls"},
   outside=["longer expectation lists","real *testing.T behaviour (Goexit on Fatalf)"])
+_connect = H("verifH_C18_connect", "connect() as one operation: dial result, CONNECT bytes vs reference, arbitrary 0..5-byte reply, resend, post-state", T({"cuts":0,"wfaults":1,"shapes":3}), T({"cuts":1,"wfaults":2,"shapes":4}, time_sec=3000, maxpaths=3000000), ("dial-failed","connect-write-failed","malformed","short","refused","badflags","resend-failed","online"))
+S["C18"] = dict(title="Connection set-up: CONNECT first, clean session once, resend before new", technique=TECH, harnesses=[_connect,
+    H("verifH_C18_lockwrite", "requests in each connect phase: down => ErrDown, pending waits for the outcome, quit => ErrCanceled", reach=("down","pending-quit","pending-online","pending-down")),
+  ],
+  assumptions=_outasm+["dialer returns the harness connection or an error; TLS and real dialers are not encoded",
+    "the abort goroutine of dialAndConnect runs in the engine's cooperative scheduler; no cancellation in this harness (C12 covers it)",
+    "write faults on packets longer than 3 bytes are case-split at offsets 0, 1 and len-1"],
+  bounds={"quick":"pending shapes {none, 1 QoS1, 1 PUBREL + 1 QoS2}, client id <= 1 byte, options {none, user+password, will}, reply 0..5 arbitrary bytes then EOF or silence, <= 1 write fault","thorough":"+ shape {2 QoS1, 1 PUBREL, 2 QoS2}, 1 read cut, <= 2 write faults"},
+  outside=["TLS / real net dialers","more than one reconnect in a row (each connect starts from an INV state)"])
+S["C10"] = dict(title="The read routine never wedges: failed connections are left and redialed", technique=TECH+"; polling loops bounded by unwinding, a loop that polls an unchanged state is a wedge", harnesses=[
+    H("verifH_C10_foreignfailure", "L10.b another goroutine's write failure left connPending while the read routine owes PUBACK/PUBREC/PUBCOMP/PUBREL: ReadSlices must return or redial", T({"spin":24}), T({"spin":48}), ("redialed",)),
+    H("verifH_C10_offline", "L10.a stream truncated at any byte (incl. inside a big duplicate): error, offline, pending subscribe and ping released with ErrBreak", reach=("offline",)),
+    H("verifH_C10_backoff", "L10.d ReadBackoff durations for free ReconnectWaitMin/Max and ramp state", reach=("end","ramp")),
+    _connect,
+  ],
+  assumptions=_outasm+["foreign writers close the connection and leave connPending on a failed transfer (shown by C08's request harness)",
+    "time.NewTicker channels are always ready and yield to other goroutines; time.AfterFunc does not fire inside the model, only its duration is checked"],
+  bounds={"quick":"polling loops unwound 24 times; <= 3 ReadSlices calls; 1 truncated packet","thorough":"48 iterations"},
+  outside=["true liveness under an adversarial scheduler","wall-clock promptness"])
+S["C12"] = dict(title="Close and Disconnect end the client from any state, promptly and for good", technique=TECH+"; cooperative goroutine model with deadlock detection", harnesses=[
+    H("verifH_C12_closeduringhandshake", "L12.b Close/Disconnect issued while the handshake reads CONNACK: both return, no goroutine left, signals and semaphores final", reach=("closed",)),
+    H("verifH_C12_states", "L12.a/c Close/Disconnect from each sequential state, then every method reports ErrClosed; termCallbacks", reach=("closed",)),
+  ],
+  assumptions=["goroutines are scheduled cooperatively: switches at channel operations, mutexes, explicit yields; interleavings are forked at each point where more than one goroutine can run"],
+  bounds={"quick":"2-3 goroutines, states {never connected, down, online, closed}, quit {nil, closed}","thorough":"same"},
+  outside=["preemption inside straight-line code","wall-clock promptness","runtime-level goroutine/descriptor leaks"])
